@@ -64,6 +64,30 @@ def run(ctx):
             H.violation("monkeytype.encoding:type_to_json", "not-structural:%s" % infer.short(t), "two structurally equal types encode differently", {"type": r}, {"a": j, "b": j2})
         else:
             H.ok(r, nontrivial=spec_c.kind(t) not in ("Class", "Any"), sample={"type": infer.short(t), "json": j[:120]})
+    # ---- short-lived types: encoding must not depend on what was encoded (and freed) before in the same process
+    H.section("short-lived types", "rounds of: infer a fresh TypedDict-bearing type from fresh values, encode, decode, compare structurally, drop it (its address is reused by the next round's type of another shape)",
+              "400 rounds x 7 shapes")
+    import gc
+    bad_rounds = []
+    for i in range(400):
+        shape = i % 7
+        vals_ = [{("k%d" % j): (j if (i + j) % 2 else "s") for j in range(shape + 1)}, [{"id": i, ("f%d" % shape): 1.5}]]
+        for v_ in vals_:
+            t_ = get_type(v_, 10)
+            try:
+                ok_ = spec_c.tyeq(type_from_json(type_to_json(t_)), t_)
+            except Exception as e:      # noqa
+                ok_ = False
+            if not ok_:
+                bad_rounds.append((i, repr(v_)[:80]))
+            del t_
+        if i % 25 == 0:
+            gc.collect()
+    if bad_rounds:
+        H.violation("monkeytype.encoding:type_to_json", "short-lived-types:%d-of-400" % len({b[0] for b in bad_rounds}), "a type encoded after other types were freed does not survive the round trip (encoding depends on process history)",
+                    {"rounds": 400}, bad_rounds[:5])
+    else:
+        H.ok("short-lived-types", sample={"rounds": 400})
     validate_t_enc(H, [t for t, _, _ in types])
     H.section("call trace round trip", "CallTraces over the fixture package's functions (module function, method, classmethod, staticmethod, read-only property, functools.wraps-decorated) with return / yield each absent, NoneType or a type",
               "6 functions x 3 x 3")
